@@ -1176,8 +1176,10 @@ def randcap(nrand, ra, dec, rad, get_radius=False, dorot=False, rng=None):
 
         atbound(rand_ra, 0.0, 360.0)
 
-    if get_radius:
+        # the rotated branch gets its radii in degrees from the call above
         np.rad2deg(rand_r, rand_r)
+
+    if get_radius:
         return rand_ra, rand_dec, rand_r
     else:
         return rand_ra, rand_dec
